@@ -346,6 +346,19 @@ func buildGlyph(m *t1model.Font, g *t1model.Glyph, o *GlyphOpts, tbl *subrTable,
 		bodyA := append(clone(toks[c0s:mid]), callTo(nB)...)
 		nA := tbl.add(append(bodyA, ret))
 		toks = splice(toks, c0s, c0e, callTo(nA))
+	case SubrDeep:
+		// the contour's own calls (flex, hint replacement) nest one level deeper
+		maxDepth := 10
+		for _, t := range toks[c0s:c0e] {
+			if t.isOp && len(t.op) == 1 && t.op[0] == opCallsubr[0] {
+				maxDepth = 9
+			}
+		}
+		n := tbl.add(append(clone(toks[c0s:c0e]), ret))
+		for depth := 2; depth <= maxDepth; depth++ {
+			n = tbl.add(append(callTo(n), ret))
+		}
+		toks = splice(toks, c0s, c0e, callTo(n))
 	case SubrOperator:
 		n := tbl.add([]tok{toks[move0Op], ret})
 		toks = splice(toks, move0Op, move0Op+1, callTo(n))
